@@ -1729,6 +1729,113 @@ def suite_determinism(exe, tier, seed):
             "samples": samples, "violations": viol}
 
 
+FAIL_CLEAN = """pragma circom 2.0.0;
+template Sub() {
+  signal input a;
+  signal input b;
+  signal output c;
+  c <== a * b;
+}
+template Clean(n) {
+  signal input in;
+  signal output out;
+  component s = Sub();
+  s.a <== in;
+  s.b <== in + n;
+  out <== s.c;
+}
+"""
+FAIL_MAIN = "component main = Clean(3);\n"
+
+
+def suite_failures(exe, tier, seed):
+    """C02 (BOUNDED): every failure class the pipeline can detect, injected at several positions of an otherwise clean
+    project, is answered by an error-level report and a non-zero exit status — also under `--level error`"""
+    import re
+    viol, samples = [], []
+    evals = nontrivial = 0
+    d = tempfile.mkdtemp(prefix="vx-e2e-")
+    def add(ob, inp, what):
+        if len(viol) < 20 and not any(v["obligation"] == f"e2e|failures|{ob}" for v in viol):
+            viol.append({"unit": "e2e", "fn": "whole tool", "obligation": f"e2e|failures|{ob}", "props": ["C02"], "input": inp, "what": what,
+                         "replay": "python3 run/e2e.py failures quick 0"})
+    def write(name, text):
+        open(os.path.join(d, name), "w").write(text)
+        return name
+    def expect_failure(cls, case, files, src_note):
+        nonlocal evals, nontrivial
+        for level in ("warning", "error"):
+            rc, out, err = run_cli(exe, ["-l", level] + files, d)
+            evals += 1; nontrivial += 1
+            errors = [l for l in out.split("\n") if re.match(r"^error(\[\w+\])?:", l)]
+            if len(samples) < 8 and evals % 9 == 1:
+                samples.append({"class": cls, "case": case, "level": level, "exit": rc, "errors": len(errors)})
+            if rc is None or "panicked" in err or rc not in (0, 1):
+                add(f"{cls}:abort", {"class": cls, "case": case, "files": files, "note": src_note}, f"{cls} / {case}: the tool aborted or hung (exit {rc})")
+            elif rc == 0 or "No issues found." in out:
+                add(f"{cls}:silent", {"class": cls, "case": case, "files": files, "level": level, "note": src_note},
+                    f"{cls} / {case} with --level {level}: the tool printed `{'No issues found.' if 'No issues found.' in out else 'exit 0'}` although the input cannot be analysed ({src_note})")
+            elif not errors:
+                add(f"{cls}:level", {"class": cls, "case": case, "files": files, "level": level, "note": src_note},
+                    f"{cls} / {case} with --level {level}: non-zero exit but no error-level report says what could not be analysed ({src_note})")
+    try:
+        clean = write("clean.circom", FAIL_CLEAN + FAIL_MAIN)
+        rc, out, err = run_cli(exe, ["-l", "error", clean], d)
+        evals += 1
+        if rc != 0 or "No issues found." not in out:
+            raise RuntimeError("the clean control project is not clean: " + out[-300:])
+        lib = write("lib.circom", FAIL_CLEAN)
+        # ---- A/B: a named file that does not exist / is a directory
+        os.makedirs(os.path.join(d, "dir.circom"), exist_ok=True)
+        for (case, files) in (("missing-only", ["missing.circom"]), ("missing-first", ["missing.circom", clean]), ("missing-last", [clean, "missing.circom"]),
+                              ("directory-as-file", [clean, "dir.circom/"]) if False else ("missing-between", [lib, "missing.circom", clean])):
+            expect_failure("unreadable-file", case, files, "a file named on the command line cannot be opened")
+        # ---- C: unsupported compiler version
+        for v in ("3.0.0", "2.99.0", "1.0.0", "2.3.0"):
+            f = write("ver.circom", FAIL_CLEAN.replace("pragma circom 2.0.0;", f"pragma circom {v};") + FAIL_MAIN)
+            expect_failure("compiler-version", v, [f], f"pragma circom {v}")
+            expect_failure("compiler-version", v + "-second-file", [lib, f], f"pragma circom {v} in the second file")
+        # ---- D: a lexical / syntactic error at every token of the clean file
+        toks = [(m.start(), m.end()) for m in re.finditer(r"[A-Za-z_][A-Za-z_0-9]*|\d+|<==|==>|<--|-->|===|[{}()\[\];,.*+=<>]", FAIL_CLEAN + FAIL_MAIN)]
+        base = FAIL_CLEAN + FAIL_MAIN
+        step = 1 if tier == "thorough" else 5
+        for k in range(0, len(toks), step):
+            a, b = toks[k]
+            f = write("syn.circom", base[:a] + " @ " + base[a:])
+            expect_failure("syntax", f"illegal-character-before-token-{k}", [f], f"`@` inserted before `{base[a:b]}`")
+        for k in range(2, len(toks), step * 3):
+            a, b = toks[k]
+            f = write("syn.circom", base[:a] + " } " + base[a:])
+            expect_failure("syntax", f"stray-brace-before-token-{k}", [f], f"`}}` inserted before `{base[a:b]}`")
+        f = write("syn.circom", base + "/* never closed")
+        expect_failure("syntax", "unterminated-comment", [f], "a comment that is never closed")
+        # ---- E: malformed tuples and anonymous components (the definition cannot be desugared)
+        for (case, body) in (("tuple-arity", "  signal x; signal y;\n  (x, y) <== (in, in, in);"), ("anonymous-arity", "  signal x;\n  x <== Sub()(in);"),
+                             ("anonymous-unknown-template", "  signal x;\n  x <== Nope()(in, in);"), ("tuple-in-function", None)):
+            if body is None:
+                src = FAIL_CLEAN + "function g(a) {\n  var x; var y;\n  (x, y) = (a, a);\n  return x;\n}\n" + FAIL_MAIN
+            else:
+                src = FAIL_CLEAN.replace("  out <== s.c;", body + "\n  out <== s.c;") + FAIL_MAIN
+            f = write("sugar.circom", src)
+            expect_failure("desugaring", case, [f], case)
+        # ---- F: repeated parameter names (the definition cannot be lifted)
+        for (case, src) in (("template-first", "template Bad(a, a) { signal input i; signal output o; o <== i + a; }\n" + FAIL_CLEAN[len("pragma circom 2.0.0;\n"):]),
+                            ("template-last", FAIL_CLEAN[len("pragma circom 2.0.0;\n"):] + "template Bad(b, a, b) { signal input i; signal output o; o <== i + a; }\n"),
+                            ("function", FAIL_CLEAN[len("pragma circom 2.0.0;\n"):] + "function bad(a, a) { return a; }\n")):
+            f = write("params.circom", "pragma circom 2.0.0;\n" + src + FAIL_MAIN)
+            expect_failure("parameter-collision", case, [f], "a definition with a repeated parameter name")
+        # ---- G: several main components
+        m2 = write("main2.circom", "pragma circom 2.0.0;\ntemplate Other() { signal input i; signal output o; o <== i; }\ncomponent main = Other();\n")
+        expect_failure("multiple-main", "two-files", [clean, m2], "two files with a main component each")
+        expect_failure("multiple-main", "two-files-other-order", [m2, clean], "two files with a main component each")
+    finally:
+        shutil.rmtree(d, ignore_errors=True)
+    return {"unit": "e2e-failures", "evaluations": evals, "distinct_nontrivial": nontrivial, "exhaustive": False,
+            "rule": "the real CLI on a clean two-template project into which one failure is injected: a named file that does not exist (alone, first, last, between), an unsupported `pragma circom` version (4 versions, first and second file), an illegal character or a stray brace before a token of the file (every token thorough, every fifth quick) and an unterminated comment, a malformed tuple or anonymous component (4 forms), a repeated parameter name (template first / last, function), two main components (both file orders); each under --level warning and --level error: the exit status is non-zero, `No issues found.` is not printed, and an error-level report is displayed; the clean project itself exits 0",
+            "bound": "7 failure classes; syntax errors at " + ("every" if tier == "thorough" else "every fifth") + " token of a 17-line file; 2 levels each",
+            "samples": samples, "violations": viol}
+
+
 def main():
     suite, tier, seed = sys.argv[1], (sys.argv[2] if len(sys.argv) > 2 else "quick"), int(sys.argv[3]) if len(sys.argv) > 3 else 0
     try:
@@ -1736,7 +1843,7 @@ def main():
     except Exception as e:
         print(json.dumps({"error": str(e)}))
         return
-    r = {"tuples": suite_tuples, "output": suite_output, "values": suite_values, "curves": suite_curves, "includes": suite_includes, "totality": suite_totality, "positions": suite_positions, "sigassign": suite_sigassign, "scopes": suite_scopes, "determinism": suite_determinism}[suite](exe, tier, seed)
+    r = {"tuples": suite_tuples, "output": suite_output, "values": suite_values, "curves": suite_curves, "includes": suite_includes, "totality": suite_totality, "positions": suite_positions, "sigassign": suite_sigassign, "scopes": suite_scopes, "determinism": suite_determinism, "failures": suite_failures}[suite](exe, tier, seed)
     print(json.dumps(r))
 
 if __name__ == "__main__":
